@@ -25,6 +25,22 @@ fn try_load(bytes: &[u8]) -> Option<Ontology> {
     }
 }
 
+/// `Ontology::from_binary` on a temporary file under harness/target/tmp (removed afterwards)
+fn load_via_file(bytes: &[u8]) -> Option<Ontology> {
+    use std::sync::atomic::{AtomicU64, Ordering};
+    static N: AtomicU64 = AtomicU64::new(0);
+    let dir = std::path::Path::new(env!("CARGO_MANIFEST_DIR")).join("target").join("tmp");
+    std::fs::create_dir_all(&dir).ok()?;
+    let path = dir.join(format!("bin-{}-{}.hpo", std::process::id(), N.fetch_add(1, Ordering::Relaxed)));
+    std::fs::write(&path, bytes).ok()?;
+    let r = catch_unwind(AssertUnwindSafe(|| Ontology::from_binary(&path)));
+    let _ = std::fs::remove_file(&path);
+    match r {
+        Ok(Ok(o)) => Some(o),
+        _ => None,
+    }
+}
+
 fn classify(bytes: &[u8]) -> char {
     if try_load(bytes).is_some() {
         'o'
@@ -260,7 +276,19 @@ pub fn exec(it: &mut Interp, toks: &[&str], out: &mut Vec<String>) -> bool {
     match toks {
         ["frombytes", h, slot] => {
             let (Some(bytes), Ok(slot)) = (bytes_arg(h), slot.parse::<u32>()) else { return false };
-            match try_load(&bytes) {
+            let loaded = try_load(&bytes);
+            // the file entry point must agree with the in-memory one
+            let via_file = load_via_file(&bytes);
+            match (&loaded, &via_file) {
+                (Some(a), Some(b)) => {
+                    if crate::interp::dump(a) != crate::interp::dump(b) {
+                        out.push("oracle FAIL from_binary(file) and from_bytes(bytes) build different ontologies".to_string());
+                    }
+                }
+                (None, None) => {}
+                _ => out.push("oracle FAIL from_binary(file) and from_bytes(bytes) disagree on accept/reject".to_string()),
+            }
+            match loaded {
                 Some(o) => {
                     it.slots.insert(slot, o);
                     out.push("r ok".to_string());
